@@ -103,8 +103,21 @@ contract(CM + '_move_random_points', props=['C08'],
                   ("every-other-label-is-kept", "forall(0, len(result), lambda p: result[p] == model._point_labels[p] or "
                    "(model._point_labels[p] == donor_cluster_id and result[p] == recipient_cluster_id))"),
                   ("labels-stay-in-range", "forall(0, len(result), lambda p: 0 <= result[p] and result[p] < len(model.clusters))"),
+                  # size accounting: exactly m points leave the donor, exactly m reach the recipient, every other cluster keeps its size
+                  ("recipient-gains-exactly-m", "cnt(result, recipient_cluster_id, len(result)) == "
+                   "cnt(model._point_labels, recipient_cluster_id, len(model._point_labels)) + " + _M),
+                  ("donor-loses-exactly-m", "cnt(result, donor_cluster_id, len(result)) == "
+                   "cnt(model._point_labels, donor_cluster_id, len(model._point_labels)) - " + _M),
+                  ("other-clusters-keep-their-size", "forall(lambda k: implies(k != donor_cluster_id and k != recipient_cluster_id, "
+                   "cnt(result, k, len(result)) == cnt(model._point_labels, k, len(model._point_labels))))"),
                   "unchanged(model, model._point_labels)"],
          loops={1: dict(inv=["len(new_point_labels) == len(model._point_labels)",
+                             "cnt(new_point_labels, recipient_cluster_id, len(new_point_labels)) == "
+                             "cnt(model._point_labels, recipient_cluster_id, len(model._point_labels)) + _k",
+                             "cnt(new_point_labels, donor_cluster_id, len(new_point_labels)) == "
+                             "cnt(model._point_labels, donor_cluster_id, len(model._point_labels)) - _k",
+                             "forall(lambda k: implies(k != donor_cluster_id and k != recipient_cluster_id, "
+                             "cnt(new_point_labels, k, len(new_point_labels)) == cnt(model._point_labels, k, len(model._point_labels))))",
                              "forall(0, _k, lambda j: new_point_labels[donated_point_ids[j]] == recipient_cluster_id)",
                              "forall(0, len(new_point_labels), lambda p: new_point_labels[p] == model._point_labels[p] or "
                              "(model._point_labels[p] == donor_cluster_id and new_point_labels[p] == recipient_cluster_id))",
@@ -182,6 +195,11 @@ contract(CM + 'repopulate_empty_clusters', props=['C08', 'C13', 'C09', 'C20'],
                    "len(result.clusters) == len(model.clusters) and same(result.arguments, model.arguments)"),
                   ("points-move-only-from-a-2m-donor-into-an-underpopulated-cluster", _MOVED.format(nl='result._point_labels', ol=_OL)),
                   ("result-is-well-formed", "wf(result)"),
+                  ("underpopulated-clusters-gain-exactly-m-and-so-hold-at-least-m", "forall(0, len(model.clusters), lambda k: "
+                   "implies(csize(model, k) < 2, csize(result, k) == csize(model, k) + " + _M + " and csize(result, k) >= " + _M + "))"),
+                  ("donors-had-2m-and-keep-at-least-m", "forall(0, len(model.clusters), lambda k: implies(csize(result, k) < csize(model, k), "
+                   "csize(model, k) >= 2 * " + _M + " and csize(result, k) >= " + _M + "))"),
+                  ("no-other-cluster-grows", "forall(0, len(model.clusters), lambda k: implies(csize(model, k) >= 2, csize(result, k) <= csize(model, k)))"),
                   ("def:typestate", "result._phase == ite(same(result, model), model._phase, 1)"),
                   ("caller-state-not-modified", _MODEL_UNCHANGED)],
          loops={1: dict(inv=["forall(lambda k: in_set(k, clusters_to_repopulate) == (0 <= k and k < _k and csize(model, k) < 2))",
@@ -196,5 +214,23 @@ contract(CM + 'repopulate_empty_clusters', props=['C08', 'C13', 'C09', 'C20'],
                              _MOVED.format(nl=_NL, ol=_OL),
                              "forall(0, len(remaining_donors), lambda j: 0 <= remaining_donors[j] and remaining_donors[j] < len(model.clusters) "
                              "and csize(model, remaining_donors[j]) >= 2 * " + _M + ")",
-                             "forall(lambda k: implies(in_set(k, _visited), in_set(k, clusters_to_repopulate)))"],
+                             "forall(lambda k: implies(in_set(k, _visited), in_set(k, clusters_to_repopulate)))",
+                             # size accounting (C08), stated over label counts (cluster sizes follow from wf): refilled clusters
+                             # gained exactly m, donors had 2m and keep m, nothing else changes size
+                             "forall(0, len(model.clusters), lambda k: implies(in_set(k, _visited), cnt(new_model._point_labels, k, len(new_model._point_labels)) == cnt(model._point_labels, k, len(model._point_labels)) + model.arguments.min_cluster_size))",
+                             "forall(0, len(model.clusters), lambda k: implies(not in_set(k, _visited), cnt(new_model._point_labels, k, len(new_model._point_labels)) <= cnt(model._point_labels, k, len(model._point_labels))))",
+                             "forall(0, len(model.clusters), lambda k: implies(cnt(new_model._point_labels, k, len(new_model._point_labels)) < cnt(model._point_labels, k, len(model._point_labels)), cnt(model._point_labels, k, len(model._point_labels)) >= 2 * model.arguments.min_cluster_size and cnt(new_model._point_labels, k, len(new_model._point_labels)) >= model.arguments.min_cluster_size))",
+                             "forall(0, len(model.clusters), lambda k: implies(not in_set(k, _visited) and cnt(model._point_labels, k, len(model._point_labels)) < 2 * model.arguments.min_cluster_size, cnt(new_model._point_labels, k, len(new_model._point_labels)) == cnt(model._point_labels, k, len(model._point_labels))))"],
+                        body_ghost={'nl0': 'new_model._point_labels'},
+                        assume_lemmas=[("cnt-ext(stored labels, moved labels)", "cnt_ext(new_model._point_labels, updated_point_labels)")],
+                        lemmas_end=[("stored-labels-are-the-moved-labels", "len(new_model._point_labels) == len(updated_point_labels) and "
+                                     "forall(0, len(updated_point_labels), lambda p: new_model._point_labels[p] == updated_point_labels[p])"),
+                                    ("same-counts-as-the-moved-labels", "forall(lambda k: cnt(new_model._point_labels, k, len(new_model._point_labels)) == "
+                                     "cnt(updated_point_labels, k, len(updated_point_labels)))"),
+                                    ("recipient-count", "cnt(new_model._point_labels, empty_cluster_id, len(new_model._point_labels)) == "
+                                     "cnt(nl0, empty_cluster_id, len(nl0)) + " + _M),
+                                    ("donor-count", "cnt(new_model._point_labels, donor_cluster_id, len(new_model._point_labels)) == "
+                                     "cnt(nl0, donor_cluster_id, len(nl0)) - " + _M),
+                                    ("other-counts", "forall(lambda k: implies(k != donor_cluster_id and k != empty_cluster_id, "
+                                     "cnt(new_model._point_labels, k, len(new_model._point_labels)) == cnt(nl0, k, len(nl0))))")],
                         modifies=['new_model._point_labels', 'new_model.clusters[*]._member_points'])})
